@@ -1008,6 +1008,31 @@ func callBuiltin(caller *frame, fn *ssa.Builtin, args []value) value {
 		args[0].(*omap).delete(args[1])
 		return nil
 
+	case "clear": // clear(map) / clear(slice)
+		switch x := args[0].(type) {
+		case *omap:
+			if x != nil {
+				x.keys, x.vals = nil, nil
+			}
+		case []value:
+			if len(x) > 0 {
+				var et types.Type
+				if sig, ok := fn.Type().(*types.Signature); ok && sig.Params().Len() > 0 {
+					if st, ok := sig.Params().At(0).Type().Underlying().(*types.Slice); ok {
+						et = st.Elem()
+					}
+				}
+				for i := range x {
+					if et != nil {
+						x[i] = zero(et)
+					} else {
+						x[i] = zero(types.Typ[types.Uint8])
+					}
+				}
+			}
+		}
+		return nil
+
 	case "print", "println": // print(any, ...)
 		ln := fn.Name() == "println"
 		var buf bytes.Buffer
